@@ -103,7 +103,7 @@ def build(read):
         f = parts.annotate_closure(
             f, "new_loc_err", "source: Error", f"Result<{RET[n]}>",
             f"r == Err::<{RET[n]}, Error>(Error::AtLoc{{source: Box::new(source), line: *line, col: *col}})", n)
-        fns.append(extract.annotate_fn(f, spec=SPEC[n]))
+        fns.append(extract.annotate_fn(f, spec=SPEC[n], attrs="#[verifier::exec_allows_no_decreases_clause]\n"))
     sel = parts.selectors_text(b, variants, raw + [mac])
     b.edits.append("annotation: closures `new_loc_err` given parameter type, named result and literal postcondition")
     b.edits.append("std contracts assumed: String::from_utf8 (validity predicate uninterpreted), i64 -> usize try_into (succeeds for n >= 0 on 64-bit)")
